@@ -594,13 +594,33 @@ func runC03(c *Ctx) {
 				more = append(more, AuthOp{K: "addfact", Fact: f})
 			}
 			twice := withOps(a, append(more, AuthOp{K: "authorize"}, AuthOp{K: "query", Rule: q})...)
-			// correspondence only: the library drops the authorizer's own rules at the end of
-			// Authorize (World.ResetRules before the block loop), so a second answer is not the
-			// answer of a new authorizer with the same content; the model follows the code
+			// the second answer must be the answer of a new authorizer holding the same content
+			// (facts, rules, checks, policies): a verdict follows from the content (finding D28)
+			fresh := a
+			fresh.Ops = append(append(append([]AuthOp{}, a.Ops[:len(a.Ops)-2]...), more...), AuthOp{K: "authorize"}, AuthOp{K: "query", Rule: q})
 			resT, sxT := emitAuth(c, "twice", twice)
-			if resT != "environment-timeout" {
+			resF, sxF := emitAuth(c, "twice-fresh", fresh)
+			if resT != "environment-timeout" && resF != "environment-timeout" {
 				c.Count("asked-twice")
 				c.NonTrivial(sxT)
+				bad := func(s string) bool {
+					return strings.Contains(s, "error") || strings.Contains(s, "limit") || strings.Contains(s, "invalid-rule") || strings.HasPrefix(s, "panic")
+				}
+				// expression-free scenarios only: an expression error inside a check or policy
+				// query is swallowed by the query, and which combination errs first depends on
+				// the order in which facts arrived (outside C12's error-free fragment as well)
+				if g.mode == 0 && !bad(resT) && !bad(resF) {
+					parts := strings.SplitN(resT, " facts:", 3)
+					if len(parts) == 3 {
+						if k := strings.LastIndex(parts[1], " "); k >= 0 {
+							second := parts[1][k+1:] + " facts:" + parts[2]
+							if second != resF {
+								c.Violate("C03/asked-twice", "an authorizer asked a second time, after more facts were added, answers differently from a new authorizer holding the same content: "+trunc(second, 80)+" vs "+trunc(resF, 80),
+									map[string]interface{}{"verb": "AUTHSEQ", "case": sxT, "go": resT, "orig_case": sxF, "orig_go": resF})
+							}
+						}
+					}
+				}
 			}
 		}
 		if i < 2 {
